@@ -33,9 +33,23 @@ VOverlap(r) ==
   ELSE IF badp # {} THEN Bad("bounds|OverlapsPoint", FirstOf(badp))
   ELSE IF r.e1 # IsEmptyBox([l |-> r.case.l, min |-> b1.min, max |-> b1.max]) THEN Bad("bounds|IsEmpty", 0)
   ELSE OK
+\* C16 for geom.Bounds and geom.Coord: the clone equals the original at clone time (and is the tight box of what was
+\* extended so far); extending / setting one of the two never shows through the other, in either order
+VClone(r) ==
+  LET c == r.case  w0 == Tight(c.l0, c.gs)
+      a1 == IF c.first = 1 THEN Tight(c.l0, Append(c.gs, c.m1)) ELSE w0      \* original after the first mutation
+      b1 == IF c.first = 2 THEN Tight(c.l0, Append(c.gs, c.m1)) ELSE w0      \* clone after the first mutation
+      a2 == IF c.first = 1 THEN a1 ELSE Tight(c.l0, Append(c.gs, c.m2))      \* then the other side is mutated with m2
+      b2 == IF c.first = 2 THEN b1 ELSE Tight(c.l0, Append(c.gs, c.m2)) IN
+  IF ~(Same(r.orig0, w0) /\ Same(r.clone0, w0)) THEN Bad("clone|Bounds|not-equal-at-clone-time", 0)
+  ELSE IF ~(Same(r.orig1, a1) /\ Same(r.clone1, b1)) THEN Bad("clone|Bounds|mutation-visible-through-the-other", 1)
+  ELSE IF ~(Same(r.orig2, a2) /\ Same(r.clone2, b2)) THEN Bad("clone|Bounds|mutation-visible-through-the-other", 2)
+  ELSE IF ~r.setok THEN Bad("clone|Bounds|Set-visible-through-the-other", 3)
+  ELSE IF ~r.coordok THEN Bad("clone|Coord|shares-storage", 4)
+  ELSE OK
 Verdict(r) ==
   IF r.ev # "ok" THEN Bad("bounds|" \o r.ev, 0)
-  ELSE CASE r.case.fam = "extend" -> VExtend(r) [] r.case.fam = "gc" -> VGc(r) [] OTHER -> VOverlap(r)
+  ELSE CASE r.case.fam = "extend" -> VExtend(r) [] r.case.fam = "gc" -> VGc(r) [] r.case.fam = "clone" -> VClone(r) [] OTHER -> VOverlap(r)
 VARIABLES i, bad
 Init == i = 1 /\ bad = 0
 Next == /\ i <= Len(Recs)
